@@ -394,7 +394,7 @@ pub fn qs_optimize(mat: &SparseMat) -> SparseMatOpt {
     for (j, col) in mat.cols.iter().enumerate() {
         for &i in col {
             if i < LSIZE {
-                dense.0[j] |= 1 << i;
+                dense.0[j] ^= 1 << i;
             } else {
                 coords.push((i as u32, j as u32));
             }
